@@ -2,7 +2,7 @@
    Model: theories/Routing/Model.v (action system + executable scheduler [step], extracted and
    compared with the real streamRouting pairs on every run). *)
 From Coq Require Import List ZArith Bool.
-From S2S Require Import Routing.Model Routing.Basic Routing.Monitor Routing.Witness.
+From S2S Require Import Routing.Model Routing.Basic Routing.Monitor Routing.Witness Routing.Inv.
 Import ListNotations.
 Open Scope Z_scope.
 
@@ -48,3 +48,32 @@ Print Assumptions C01_refuted_without_registration.
 Theorem C01_same_history_safe_now : any_unsafe true (init 1 2) f1_history = false.
 Proof. exact f1_safe_after_fix. Qed.
 Print Assumptions C01_same_history_safe_now.
+
+(* THE PROPERTY, end to end.  For every number of sources and targets and EVERY sequence of actions of the transition
+   system - every interleaving of the critical sections of all receivers, senders and acknowledgement goroutines, every
+   batch shape, every timing of acknowledgements, stalls and first connections - in which the sources follow the sender
+   contract (wf_act: ids increase, watermarks above ids and monotone) and no stream fails (failures are property C04):
+   every acknowledgement sent to a source is safe in the state in which it is sent, i.e. every task of that source below
+   it has an entry in its owning target's id table with a proxy id that this target has acknowledged.
+   [all_safe] is stated with the executable monitor [unsafe_ack] of Routing/Monitor.v, the same predicate that is applied
+   to the implementation's traces. *)
+Theorem C01_safe_acks : forall ns nt l, wf_run (init ns nt) l -> all_safe (init ns nt) l.
+Proof. exact safe_acks_from_start. Qed.
+Print Assumptions C01_safe_acks.
+
+(* the same for the executable event-level semantics that is extracted and compared with the real code *)
+Theorem C01_safe_acks_executable : forall ns nt evs, wf_events (init ns nt) evs -> events_safe (init ns nt) evs.
+Proof. intros ns nt evs. apply events_safe_all. apply inv_init. Qed.
+Print Assumptions C01_safe_acks_executable.
+
+(* the invariant behind it holds in every reachable state *)
+Theorem C01_invariant_reachable : forall ns nt l, wf_run (init ns nt) l -> Inv (fst (run_acts true (init ns nt) l)).
+Proof. intros ns nt l. apply inv_run. apply inv_init. Qed.
+Print Assumptions C01_invariant_reachable.
+
+(* the hypotheses are satisfiable: the actions of the F1 history form a well-formed run *)
+Theorem C01_premises_satisfiable :
+  wf_run (init 1 2) [AConnect 0; AConnect 1; APush 0 [tk 5 1] 6; ARead 0; AHandoff 0 1; APush 0 [tk 6 0] 7; ARead 0; AHandoff 0 0;
+                     ADequeue 0; ASend 0; AAckIn 0 2; AAggregate 0; ADeliver 0; ADiscard 0; AProcAck 0].
+Proof. exact wf_nonvacuous. Qed.
+Print Assumptions C01_premises_satisfiable.
